@@ -7,3 +7,8 @@ package tcp
 //@ property C17
 // tcpTransport adds nothing to the byte path: all I/O methods are the wrapper's own.
 //@ promoted tcpTransport via Transport: Read Write Writev Flush Close
+
+//@ property C12
+//@ field tcpAcceptor.closed atomic
+//@ field tcpAcceptor.listener immutable (*tcpFactory).Listen
+//@ field tcpAcceptor.options immutable (*tcpFactory).Listen
